@@ -68,6 +68,7 @@ def _path(clf, X, y=None, alpha_multiplier=1.05, min_features=2, keep_threshold=
 
     # Start by fitting the model using all features and without regularisation
     alpha = clf.alpha
+    initial_alpha = clf.alpha
     if alpha <= 0:
         warnings.warn(f"The initial alpha of the model is 0 and cannot be increased geometrically, which implies an "
                       f"infinite loop. Setting it to default: 1e-2")
@@ -168,5 +169,8 @@ def _path(clf, X, y=None, alpha_multiplier=1.05, min_features=2, keep_threshold=
             if clf.verbose:
                 print(f"This is definitely the best score so far within threshold: {iteration_gemini_score}, "
                       f"{best_gemini_score}")
+
+    # The path must not leave the hyperparameter alpha of the model at the last value it went through
+    clf.alpha = initial_alpha
 
     return best_weights, geminis, group_lasso_penalties, alphas, n_features
